@@ -69,6 +69,19 @@ Theorem C25_resolution_order : forall fs main,
 Proof. exact links_spec. Qed.
 Print Assumptions C25_resolution_order.
 
+(* The same for import cycles that are harmless: every followed import (importer, imported)
+   of a grammar still being loaded is such that each unqualified name written in the importer
+   is defined by the importer itself, is a built-in, or is not defined by the imported grammar
+   ([safe], a decidable predicate on the file contents and the log; self-imports always
+   qualify).  Its negation is exactly the class of the known finding. *)
+Theorem C25_resolution_order_cycles : forall fs main,
+  aget BASE fs = None -> main <> BASE ->
+  serr (load_main fs main) = None -> safe fs (load_main fs main) = true ->
+  forall l, In l (links (load_main fs main)) ->
+    option_map cls_key (l_target l) = spec_resolve fs (l_ns l) (l_name l).
+Proof. exact links_spec_safe. Qed.
+Print Assumptions C25_resolution_order_cycles.
+
 (* metamodel[name] after ANY successful load (import cycles included) is the documented rule
    as seen from the main grammar ... *)
 Theorem C25_metamodel_getitem : forall fs main,
@@ -151,6 +164,17 @@ Example C25_nonvacuous :
   option_map cls_key (lookup (load_main ex_diamond [97]%N) [97]%N [89]%N) = Some ([97], [89])%N.
 Proof. vm_compute. repeat split; reflexivity. Qed.
 Print Assumptions C25_nonvacuous.
+
+(* a cyclic tree (mutual import and self-import) within the hypotheses of
+   C25_resolution_order_cycles, and the finding witness outside them *)
+Example C25_nonvacuous_harmless_cycle :
+  aget BASE ex_harmless = None /\ serr (load_main ex_harmless [97]%N) = None /\
+  backs (load_main ex_harmless [97]%N) = [([98], [97]); ([97], [97])]%N /\
+  safe ex_harmless (load_main ex_harmless [97]%N) = true /\
+  length (links (load_main ex_harmless [97]%N)) = 4 /\
+  safe ex_silent (load_main ex_silent [97]%N) = false.
+Proof. vm_compute. repeat split; reflexivity. Qed.
+Print Assumptions C25_nonvacuous_harmless_cycle.
 
 (* the hypothesis of C25_metamodel_getitem holds on a cyclic tree too (the finding witness) *)
 Example C25_nonvacuous_cycle :
